@@ -101,6 +101,17 @@ func (z *flowTie) expr(n *a.Expr) string {
 	return s
 }
 
+// isNumBuiltinCall: `x.min(…)`, `x.max(…)`, `x.low_bits(…)`, `x.high_bits(…)` on a numeric x
+// (an expression of the model, not a call statement)
+func isNumBuiltinCall(n *a.Expr) bool {
+	recv, meth, _, ok := n.IsMethodCall()
+	if !ok || recv.MType() == nil || !recv.MType().IsNumType() {
+		return false
+	}
+	_, ok = builtinOpNames[meth]
+	return ok
+}
+
 // exprClass names why an expression is outside the fragment (for the histogram)
 func exprClass(tm *t.Map, n *a.Expr) string {
 	cls := "other"
@@ -218,7 +229,7 @@ func (z *flowTie) stmt(o *a.Node) string {
 	case a.KAssign:
 		n := o.AsAssign()
 		lhs, rhs, op := n.LHS(), n.RHS(), n.Operator()
-		if rhs.Operator() == t.IDOpenParen {
+		if rhs.Operator() == t.IDOpenParen && !isNumBuiltinCall(rhs) {
 			recv, meth, args, ok := rhs.IsMethodCall()
 			if !ok || recv.Operator() != 0 || recv.Ident() != t.IDThis {
 				return z.fail("expression " + exprClass(z.tm, rhs))
